@@ -24,6 +24,15 @@ PRUNE = [
 ]
 
 PROPS = {
+    "C06": {
+        "level": "model_checking",
+        "harnesses": [
+            H("H_C06_roundtrip", "real saveFailFile -> loadFailFile over the in-memory file system (real bufio.Scanner code executed); seed and <=2 bitstream words symbolic 64-bit; captured output = 0..2 (quick) / 0..3 (thorough) lines chosen by the solver from 10 representative lines (lengths 0,1,..,65533,65534,65535,70000; comment-like, data-like, version-like, blank, CR contents), with/without trailing newline", reach=["loaded"], quick=Q, thorough=T),
+        ],
+        "assumptions": ENGINE_ASSUME + ["package os replaced by an in-memory file system (POSIX rename atomicity, one directory tree, no concurrent writer)",
+                                        "fmt/strconv: formatting a symbolic word and parsing the resulting text are inverse (strconv.ParseUint of the text printed for a symbolic value returns that value)",
+                                        "strings are concrete: output contents are representatives chosen by case split, not arbitrary bytes"],
+    },
     "C07": {
         "level": "model_checking",
         "harnesses": [
